@@ -146,7 +146,8 @@ func sortFuncInfos(fis []*FuncInfo) {
 
 func checkC12(w *World, r *Result) {
 	r.Explanation = "Decides structural necessary conditions: REC-C12a/REC-memo composite nodes are registered under the looked-up key before the recursive descent and handleType returns the memo hit first (termination on recursive declarations); AGR-C12b createType is only entered through handleType, and every child type obtained from go/types accessors is passed to handleType; AGR-C12c node fields are filled from the accessor of the same name of the switch-bound go/types value (Key<-Key(), Elem<-Elem(), Len<-Len(), slice Len=-1) and Type() rebuilds with NewMap(Key,Elem), NewArray(Elem,Len) under Len>=0, NewSlice(Elem), NewPointer(Elem), named kinds returning their stored *types.Named; AGR-C12k alias keys are resolved with types.Unalias (all levels); AGR-C03a every test of Array.Len in package analysis is equivalent to Len>=0 or its negation; AGR-C12t the string NewTime compares against equals the underlying type string of time.Time in the loaded standard library; AGR-C12n NewBasicKind maps the go/types flag of each kind to the kind of the same name; PTH-C12d Source is ordered by declaration position between collection and use. Does not decide: identity of the round trip through Type() as a value-level statement, classification values beyond the agreements above."
-	r.Rules = []string{"REC-C12a", "REC-memo", "AGR-C12b", "AGR-C12c", "AGR-C12k", "AGR-C03a", "AGR-C12t", "AGR-C12n", "PTH-C12d", "PKG-ID", "MEMO-KEY", "ALIAS-APPEND", "STATE-PKG"}
+	r.Rules = []string{"REC-C12a", "REC-memo", "AGR-C12b", "AGR-C12c", "AGR-C12s", "AGR-C12k", "AGR-C03a", "AGR-C12t", "AGR-C12n", "PTH-C12d", "PKG-ID", "MEMO-KEY", "ALIAS-APPEND", "STATE-PKG", "POS-ORDER"}
+	posOrderRule(w, r, func(rel string) bool { return rel == "analysis" })
 	statePkgRule(w, r, func(rel string) bool { return rel == "analysis" })
 	aliasAppendRule(w, r, func(rel string) bool { return rel == "analysis" })
 	// recursion guards of the analysis SCC
@@ -161,6 +162,7 @@ func checkC12(w *World, r *Result) {
 		Undecided("PKG-ID: fewer package identity comparisons in package analysis than confirmed by hand")
 	}
 	memoKeyRule(w, r, func(rel string) bool { return rel == "analysis" })
+	checkBasicNode(w, r)
 	checkChildrenRegistered(w, r)
 	checkAccessorAgreement(w, r)
 	checkTypeRebuild(w, r)
@@ -550,4 +552,47 @@ func checkSourceOrder(w *World, r *Result) {
 		}
 	}
 	r.cond(used, "PTH-C12d", fi.Name, "Source built from the sorted slice", w.Pos(sortCall.Pos()), "the sorted slice is ranged over, in order, after the sort", "the sorted slice is not the one Source is built from")
+}
+
+// checkBasicNode (AGR-C12s): a basic type is reported with the go/types basic it was built from
+// (`&Basic{B: <the switch-bound *types.Basic>}`): sharing one predefined node per simplified kind makes float32
+// come back as float64 and complex128 as string when the node is converted back with Type().
+func checkBasicNode(w *World, r *Result) {
+	fi := w.MustFunc("analysis.(*Analysis).createType")
+	info := fi.Pkg.TypesInfo
+	n := 0
+	ast.Inspect(fi.Decl.Body, func(x ast.Node) bool {
+		cc, ok := x.(*ast.CaseClause)
+		if !ok || len(cc.List) != 1 || es(cc.List[0]) != "*types.Basic" {
+			return true
+		}
+		bound := info.Implicits[cc]
+		ast.Inspect(&ast.BlockStmt{List: cc.Body}, func(y ast.Node) bool {
+			ret, ok := y.(*ast.ReturnStmt)
+			if !ok || len(ret.Results) != 1 {
+				return true
+			}
+			n++
+			good := false
+			if u, ok := ast.Unparen(ret.Results[0]).(*ast.UnaryExpr); ok {
+				if lit, ok := u.X.(*ast.CompositeLit); ok && strings.HasSuffix(es(lit.Type), "Basic") {
+					for _, el := range lit.Elts {
+						if kv, ok := el.(*ast.KeyValueExpr); ok && es(kv.Key) == "B" {
+							if id := identOf(kv.Value); id != nil && bound != nil && objOf(info, id) == bound {
+								good = true
+							}
+						}
+					}
+				}
+			}
+			r.cond(good, "AGR-C12s", fi.Name, "case *types.Basic: return "+es(ret.Results[0]), w.Pos(ret.Pos()),
+				"the node keeps the go/types basic it was built from",
+				"a basic type is reported through `"+es(ret.Results[0])+"` instead of a node holding its own *types.Basic: Type() of the result is the shared node's type (float32 becomes float64; a kind outside the simplified table becomes whatever kind has value 0)")
+			return true
+		})
+		return false
+	})
+	if n == 0 {
+		Undecided("AGR-C12s: createType has no `case *types.Basic` with a return")
+	}
 }
